@@ -6,7 +6,7 @@
     full-file lemma for rollover). *)
 From RN Require Import Base.Res Codec.Varint Codec.BufReader Codec.ScanProofs
   RaftLog.LogFile RaftLog.Spec RaftLog.Layout RaftLog.RecordProofs RaftLog.InitProofs
-  RaftLog.Refine RaftLog.Corollaries RaftLog.ManagerProofs.
+  RaftLog.Refine RaftLog.Corollaries RaftLog.ManagerProofs RaftLog.Examples.
 Local Open Scope N_scope.
 
 (** the representation invariant is established by creating a log file (any start index, term,
@@ -77,3 +77,9 @@ Proof. exact full_only_at_block_end. Qed.
 Theorem C02_manager_query_partial : forall m lo hi,
   mgr_wf m -> mgr_query_spec m lo hi.
 Proof. exact mgr_query_refines. Qed.
+
+(** the hypotheses above are satisfiable by a non-trivial state (130 appends, a cut across the index
+    boundary, 31 re-appends, reopen) *)
+Theorem C02_hypotheses_satisfiable : exists s st,
+  RepS s st /\ a_first (fst st) = 1 /\ a_len (fst st) = 131 /\ a_last (fst st) 0 = (131, 2).
+Proof. exact rep_example. Qed.
